@@ -54,9 +54,51 @@ fn forms(name: &str, data: &[u8], out: &mut Vec<(String, Vec<u8>)>) {
             out.push((format!("{} base64 (offset {})", name, skip), enc.into_bytes()));
         }
     }
+    for skip in 1..3 {
+        if data.len() > skip + 12 {
+            out.push((format!("{} base64url (offset {})", name, skip), b64(&data[skip..], true, false).into_bytes()));
+        }
+    }
     let dec: Vec<String> = data.iter().map(|b| b.to_string()).collect();
     out.push((format!("{} decimal list", name), dec.join(", ").into_bytes()));
     out.push((format!("{} decimal list (compact)", name), dec.join(",").into_bytes()));
+    // the byte-dump renderings Rust offers for a slice: {:x?}, {:X?}, {:02x?}, {:#04x?} (lists: long window), separated hex
+    // (found after separators are stripped, see `strip_separators`), escape_ascii / Bytes Debug, lossy UTF-8
+    let strip = |t: String| t.trim_start_matches('[').trim_end_matches(']').to_string().into_bytes();
+    out.push((format!("{} hex list {{:x?}}", name), strip(format!("{:x?}", data))));
+    out.push((format!("{} hex list {{:X?}}", name), strip(format!("{:X?}", data))));
+    out.push((format!("{} hex list {{:02x?}}", name), strip(format!("{:02x?}", data))));
+    out.push((format!("{} hex list {{:#04x?}}", name), strip(format!("{:#04x?}", data).replace("\n", "").replace("    ", " "))));
+    out.push((format!("{} escape_ascii", name), data.escape_ascii().to_string().into_bytes()));
+    out.push((format!("{} lossy UTF-8", name), String::from_utf8_lossy(data).to_string().into_bytes()));
+    if let Ok(text) = std::str::from_utf8(data) {
+        out.push((format!("{} escape_debug", name), text.escape_debug().to_string().into_bytes()));
+        let trimmed = text.trim();
+        if trimmed.len() != text.len() {
+            out.push((format!("{} trimmed", name), trimmed.as_bytes().to_vec()));
+        }
+    }
+}
+
+/// Hex digits that remain when the usual separators of byte dumps are removed (`0x`, `\x`, `, `, `:`, ` `, `[`, `]`, `-`):
+/// `01:38:c7`, `01 38 c7`, `0x01, 0x38`, `\x01\x38` all become `0138c7`.
+fn strip_separators(hay: &[u8]) -> Vec<u8> {
+    let mut out = Vec::with_capacity(hay.len());
+    let mut i = 0;
+    while i < hay.len() {
+        let c = hay[i];
+        if (c == b'0' || c == b'\\') && i + 1 < hay.len() && (hay[i + 1] == b'x' || hay[i + 1] == b'X') && i + 2 < hay.len() && hay[i + 2].is_ascii_hexdigit() {
+            i += 2;
+            continue;
+        }
+        if matches!(c, b',' | b':' | b' ' | b'[' | b']' | b'-' | b'\n' | b'_') {
+            i += 1;
+            continue;
+        }
+        out.push(c.to_ascii_lowercase());
+        i += 1;
+    }
+    out
 }
 
 /// Decimal-list renderings have little entropy per character: require ~10 consecutive numbers for those.
@@ -69,7 +111,7 @@ pub struct Taint {
 }
 
 fn is_dec(name: &str) -> bool {
-    name.contains("decimal list")
+    name.contains(" list")
 }
 
 impl Taint {
@@ -98,6 +140,25 @@ impl Taint {
         }
     }
 
+    /// `scan` on the text as it is and on the text with byte-dump separators removed (lower-cased).
+    pub fn scan_all(&self, hay: &[u8]) -> Option<String> {
+        if let Some(n) = self.scan(hay) {
+            return Some(n);
+        }
+        if hay.len() > 20_000 {
+            return None;
+        }
+        let stripped = strip_separators(hay);
+        if stripped.len() != hay.len() {
+            if let Some(n) = self.scan(&stripped) {
+                if n.ends_with(" hex") {
+                    return Some(format!("{} (separated)", n));
+                }
+            }
+        }
+        None
+    }
+
     /// Name of the first pattern of which ≥ 16 consecutive bytes (decimal lists: ≥ 40) occur in `hay`.
     pub fn scan(&self, hay: &[u8]) -> Option<String> {
         if hay.len() >= W {
@@ -113,9 +174,9 @@ impl Taint {
                 }
             }
         }
-        if hay.len() >= W_DEC && !self.windows_dec.is_empty() && hay.windows(2).any(|x| x == b", " || (x[0] == b',' && x[1].is_ascii_digit())) {
+        if hay.len() >= W_DEC && !self.windows_dec.is_empty() && hay.windows(2).any(|x| x == b", " || (x[0] == b',' && x[1].is_ascii_alphanumeric())) {
             for w in hay.windows(W_DEC) {
-                if w[0].is_ascii_digit() && self.windows_dec.contains(w) {
+                if w[0].is_ascii_alphanumeric() && self.windows_dec.contains(w) {
                     for (n, p) in &self.patterns {
                         if is_dec(n) && p.windows(W_DEC).any(|x| x == w) {
                             return Some(n.clone());
@@ -170,23 +231,28 @@ fn renderings(case: &Case, date_str: &str, t: &mut Tally) -> Vec<(String, String
     let kr = kd.to_kregion(&case.cfg.region);
     let kv = kr.to_kservice(&case.cfg.service);
     let kg = kv.to_ksigning();
-    macro_rules! all {
-        ($name:expr, $x:expr) => {
-            v.push((format!("{} {{}}", $name), format!("{}", $x)));
-            v.push((format!("{} {{:?}}", $name), format!("{:?}", $x)));
-            v.push((format!("{} {{:#?}}", $name), format!("{:#?}", $x)));
-        };
-    }
     macro_rules! dbg_only {
         ($name:expr, $x:expr) => {
             v.push((format!("{} {{:?}}", $name), format!("{:?}", $x)));
             v.push((format!("{} {{:#?}}", $name), format!("{:#?}", $x)));
+            // the formatter flags a caller can pass: hex-flavoured Debug, width, precision
+            v.push((format!("{} {{:x?}} {{:#x?}} {{:X?}} {{:80?}} {{:.8?}}", $name), format!("{:x?} {:#x?} {:X?} {:80?} {:.8?}", $x, $x, $x, $x, $x)));
+        };
+    }
+    macro_rules! all {
+        ($name:expr, $x:expr) => {
+            v.push((format!("{} {{}}", $name), format!("{}", $x)));
+            v.push((format!("{} {{:#}} {{:80}} {{:.8}} {{:>90.70}}", $name), format!("{:#} {:80} {:.8} {:>90.70}", $x, $x, $x, $x)));
+            dbg_only!($name, $x);
         };
     }
     all!("KSecretKey", ks);
     // a secret that does not fit must not be echoed by the refusal either
     if let Err(e) = KSecretKey::<8>::from_str(&secret) {
         all!("KeyTooLongError", e);
+        v.push(("KeyTooLongError as a boxed error, all renderings".into(), crate::exec::render_error_alt(&e)));
+        let se: scratchstack_aws_signature::SignatureError = (Box::new(e) as tower::BoxError).into();
+        v.push(("KeyTooLongError converted to SignatureError, all renderings".into(), format!("{} {:?} {}", se, se, crate::exec::render_error_alt(&se))));
     }
     all!("KDateKey", kd);
     all!("KRegionKey", kr);
@@ -247,13 +313,14 @@ fn scan_case(t: &mut Tally, case: &Case, label: &str) {
     capture_logs(true);
     let rec = execute(case);
     let logs = take_logs();
-    capture_logs(false);
     t.eval();
     if matches!(rec.outcome, Outcome::NotBuilt(_)) {
+        capture_logs(false);
         t.count("not_built_by_http");
         return;
     }
     let Some(j) = judge(case, &rec) else {
+        capture_logs(false);
         return;
     };
     let secret = match &case.script.answer {
@@ -273,9 +340,18 @@ fn scan_case(t: &mut Tally, case: &Case, label: &str) {
     if refused {
         if let Some(sig) = &j.analysis.expected_sig {
             let presented = j.analysis.presented_sig.clone().unwrap_or_default();
-            if presented != *sig && presented.eq_ignore_ascii_case(sig) {
+            let shares_window = presented.len() >= W && sig.len() >= W && presented.as_bytes().windows(W).any(|w| sig.as_bytes().windows(W).any(|x| x == w));
+            if presented.contains(sig.as_str()) {
+                // the client sent the whole correct signature (plus decoration): nothing about it can leak to that client
+                t.count("decorated_correct_signature_refused");
+            } else if presented != *sig && presented.eq_ignore_ascii_case(sig) {
                 full_only = Some(sig.clone().into_bytes());
                 t.count("case_variant_of_correct_signature_refused");
+            } else if presented != *sig && shares_window {
+                // a prefix of the correct signature, or the correct one with a digit changed: echoes of what the client sent
+                // overlap the correct one, so only the complete correct signature (which was not sent) counts
+                full_only = Some(sig.clone().into_bytes());
+                t.count("near_miss_of_correct_signature_refused");
             } else if presented != *sig {
                 pats.push(("correct signature of a refused request".into(), sig.clone().into_bytes()));
                 pats.push(("correct signature of a refused request (upper case)".into(), sig.to_uppercase().into_bytes()));
@@ -289,12 +365,22 @@ fn scan_case(t: &mut Tally, case: &Case, label: &str) {
     if let Some(e) = rec.outcome.err() {
         hay.push(("error Display".into(), e.msg.clone().into_bytes()));
         hay.push(("error Debug".into(), e.debug.clone().into_bytes()));
+        hay.push(("error, alternate / hex / width / precision renderings and source chain".into(), e.alt.clone().into_bytes()));
     }
     if let Outcome::Ok(o) = &rec.outcome {
         hay.push(("returned principal/session Debug".into(), format!("{:?} {:?}", o.principal, o.session).into_bytes()));
     }
     for (name, text) in renderings(case, &date, t) {
         hay.push((name, text.into_bytes()));
+    }
+    // records emitted while values were being built and formatted (key construction, conversions) count as well
+    let logs_fmt = take_logs();
+    capture_logs(false);
+    for (lvl, target, msg) in &logs_fmt {
+        if *lvl != log::Level::Trace {
+            hay.push((format!("log record {} [{}] during direct API calls / formatting", lvl, target), msg.clone().into_bytes()));
+            t.count("log_records_during_formatting_judged");
+        }
     }
     let mut trace_records = 0;
     let mut control_hit = false;
@@ -330,7 +416,7 @@ fn scan_case(t: &mut Tally, case: &Case, label: &str) {
             }
         }
         t.count("renderings_scanned");
-        if let Some(p) = taint.scan(h) {
+        if let Some(p) = taint.scan_all(h) {
             t.violate(violation(
                 "leak",
                 &format!("{}|{}", p.split(' ').next().unwrap_or(""), name.split(' ').next().unwrap_or("")),
@@ -359,7 +445,17 @@ fn scan_case(t: &mut Tally, case: &Case, label: &str) {
 
 fn shard(seed: u64, shard: u64, n: u64) -> Tally {
     let mut t = Tally::new();
+    // a quarter of the shards run the way a deployment logging at Debug does (trace records disabled)
+    let debug_only = shard % 4 == 3;
+    crate::exec::set_thread_log_max(if debug_only {
+        log::LevelFilter::Debug
+    } else {
+        log::LevelFilter::Trace
+    });
     for i in 0..n {
+        if debug_only {
+            t.count("cases_run_with_logger_at_debug");
+        }
         let mut r = Rng::keyed(seed, "C17", "case", shard, i);
         let mut cfg = gen_cfg(&mut r);
         if r.chance(1, 4) {
@@ -367,8 +463,28 @@ fn shard(seed: u64, shard: u64, n: u64) -> Tally {
             cfg.fold = true;
         }
         let mut l = gen_logical(&mut r, &cfg, &GenOpts::default());
-        // 40 random characters: a chance match of 16 consecutive bytes is negligible
-        l.secret = r.string_from(B64ISH, 40);
+        // 16–40 random characters (a chance match of 16 consecutive bytes is negligible), now and then longer than the
+        // default key type holds (the provider's refusal then travels through the library), now and then with a character
+        // at either end that a diagnostic might single out: white space, quotes, backslash, non-ASCII
+        let len = if r.chance(1, 8) {
+            41 + r.usize_below(24)
+        } else {
+            16 + r.usize_below(25)
+        };
+        let mut secret = r.string_from(B64ISH, len);
+        if r.chance(1, 4) {
+            let odd = *r.pick(&["\n", "\r\n", " ", "\t", "\"", "\\", "é", "\u{a0}", "'"]);
+            if r.coin() {
+                secret.push_str(odd);
+            } else {
+                secret.insert_str(0, odd);
+            }
+            t.count("secrets_with_odd_edge_character");
+        }
+        if secret.len() > 40 {
+            t.count("secrets_longer_than_the_key_type_holds");
+        }
+        l.secret = secret;
         let mut sr = Rng::keyed(seed, "C17", "spell", shard, i);
         let mut sp = Speller {
             r: &mut sr,
@@ -390,6 +506,7 @@ fn shard(seed: u64, shard: u64, n: u64) -> Tally {
         };
         scan_case(&mut t, &case, &label);
     }
+    crate::exec::set_thread_log_max(log::LevelFilter::Trace);
     t
 }
 
@@ -415,6 +532,28 @@ fn scanner_control(t: &mut Tally) {
     let dbg = format!("KSigningKey {{ key: {:?} }}", k);
     if taint.scan(dbg.as_bytes()).is_none() {
         missed.push("derived Debug of the key array".into());
+    }
+    for (what, text) in [
+        ("colon-separated hex", k.iter().map(|b| format!("{:02x}", b)).collect::<Vec<_>>().join(":")),
+        ("space-separated HEX", k.iter().map(|b| format!("{:02X}", b)).collect::<Vec<_>>().join(" ")),
+        ("0x-prefixed list", format!("{:#04x?}", k)),
+        ("\\x-escaped", k.iter().map(|b| format!("\\x{:02x}", b)).collect::<String>()),
+        ("{:x?} list", format!("{:x?}", k)),
+        ("{:02X?} list", format!("{:02X?}", k)),
+        ("escape_ascii", k.escape_ascii().to_string()),
+        ("escape_debug of a secret with a newline", "Zx9Qw3ErTy7UiOp1AsDf5GhJk2Lz\n".escape_debug().to_string()),
+    ] {
+        let t2 = if what.starts_with("escape_debug") {
+            Taint::new(key_patterns("Zx9Qw3ErTy7UiOp1AsDf5GhJk2Lz\n", "20150830", "us-east-1", "service"))
+        } else {
+            Taint::new(pats.clone())
+        };
+        if t2.scan_all(format!("key dump: {} end", text).as_bytes()).is_none() {
+            missed.push(what.to_string());
+        }
+    }
+    if taint.scan_all(b"nothing secret here, just an ordinary message of some length: 01:02:03:04 0x10, 0x20 [1, 2, 3]").is_some() {
+        missed.push("false positive on clean text with separators".into());
     }
     if taint.scan(b"nothing secret here, just an ordinary message of some length").is_some() {
         missed.push("false positive on clean text".into());
@@ -443,11 +582,15 @@ pub fn run(tier: Tier) -> i32 {
     ctx.gate("signature-mismatch refusals scanned (correct signature known to the oracle)", tally.get("signature_mismatch_refusals_scanned"), tier.n(1000, 30_000));
     ctx.gate("control: scanner saw the expected signature in the trace-level mismatch record", tally.get("control_scanner_saw_signature_in_trace_record"), tier.n(1000, 30_000));
     ctx.gate("control: every encoded form detected on synthetic records", tally.get("scanner_control_ok"), 1);
+    ctx.gate("cases run the way a deployment logging at Debug does (trace records disabled)", tally.get("cases_run_with_logger_at_debug"), tier.n(10_000, 300_000));
+    ctx.gate("secrets longer than the default key type holds (the provider's refusal travels through the library)", tally.get("secrets_longer_than_the_key_type_holds"), tier.n(3_000, 100_000));
+    ctx.gate("secrets with white space / quote / backslash / non-ASCII at an edge", tally.get("secrets_with_odd_edge_character"), tier.n(5_000, 150_000));
+    ctx.gate("refusals of a prefix / one-digit-off variant of the correct signature scanned", tally.get("near_miss_of_correct_signature_refused"), tier.n(500, 10_000));
     ctx.gate("public key / request / response types formatted", tally.get("public_key_types_formatted"), tier.n(10_000, 300_000));
     ctx.gate("log records at debug level or above judged", tally.get("log_records_judged/DEBUG") + tally.get("log_records_judged/INFO") + tally.get("log_records_judged/WARN") + tally.get("log_records_judged/ERROR"), tier.n(100, 1000));
     let rep = Report {
         level: "exploration",
-        rule: "Taint scan. Every execution of W-sign / W-defect (no defect, each injector alone — a refusal at every rank incl. every provider failure kind —, random pairs; both carriers, all option sets) runs with a capturing log::Log at max level Trace. Scanned: the error's Display and Debug, {}/{:?}/{:#?} of KSecretKey…KSigningKey, GetSigningKeyRequest/Response, SigV4AuthenticatorResponse, (unstable feature) CanonicalRequest, AuthParams, SigV4Authenticator, returned principal/session, and every captured log record of level Error/Warn/Info/Debug (trace records are counted and used only as the control). Patterns: secret, 'AWS4'+secret, kDate, kRegion, kService, kSigning — raw, hex, HEX, base64 (std / url-safe, three alignments), decimal lists — and, for a refused request, the correct signature the reference model computes (either case); a match of ≥ 16 consecutive pattern bytes is a violation. Secrets are 40 random characters. Distinct = distinct scanned cases by hash.".into(),
+        rule: "Taint scan. Every execution of W-sign / W-defect (no defect, each injector alone — a refusal at every rank incl. every provider failure kind —, random pairs; both carriers, all option sets) runs with a capturing log::Log at max level Trace. Scanned: the error's Display and Debug plus its alternate / hex-flavoured / width / precision renderings and its source() chain, {} {:#} {:80} {:.8} {:?} {:#?} {:x?} {:#x?} {:X?} of KSecretKey…KSigningKey and of KeyTooLongError (also boxed and converted), GetSigningKeyRequest/Response, SigV4AuthenticatorResponse, (unstable feature) CanonicalRequest, AuthParams, SigV4Authenticator, returned principal/session, and every captured log record of level Error/Warn/Info/Debug, including records emitted while keys are constructed and values formatted (trace records are counted and used only as the control); a quarter of the shards run with the logger at Debug, as a deployment would. Patterns: secret, 'AWS4'+secret, kDate, kRegion, kService, kSigning — raw, hex, HEX, separated hex (`:`/space/`0x`/`\\x`, found after separators are stripped), base64 (std / url-safe, three alignments), decimal and hex lists ({:?} {:x?} {:X?} {:02x?} {:#04x?}), escape_ascii, escape_debug, lossy UTF-8, trimmed — and, for a refused request, the correct signature the reference model computes (either case); a match of ≥ 16 consecutive pattern bytes is a violation. Secrets are 16–64 random characters (longer than 40: the provider's key type refuses them), a quarter with white space, a quote, a backslash or a non-ASCII character at an edge; wrong signatures include prefixes and one-digit-off variants of the correct one (then only the complete correct signature counts). Distinct = distinct scanned cases by hash.".into(),
         assumptions: vec!["leaks shorter than 16 consecutive bytes of a pattern are not detected".into(), "trace-level records are outside the statement".into()],
         extra: J::obj().set("calibrated_vectors", J::i(pre.unwrap_or(0) as i64)),
     };
